@@ -28,8 +28,16 @@ EPOCH = datetime(1970, 1, 1, tzinfo=timezone.utc)
 US = timedelta(microseconds=1)
 
 
-def dt(us: int) -> datetime:
-    return EPOCH + timedelta(microseconds=us)
+def dt(us: int, tz: str | None = None) -> datetime:
+    """The UTC instant `us` microseconds after the epoch; with `tz`, the same instant expressed in that
+    (DST-observing) zone.  Everything recorded is converted back with to_us(), i.e. compared as a UTC instant:
+    arithmetic on an aware datetime is done on its LOCAL wall clock by Python, so code that keeps a window end
+    in a zoneinfo zone and adds periods to it drifts by the DST offset across a transition."""
+    t = EPOCH + timedelta(microseconds=us)
+    if tz:
+        from zoneinfo import ZoneInfo
+        t = t.astimezone(ZoneInfo(tz))
+    return t
 
 
 def to_us(t: datetime) -> int:
@@ -47,6 +55,7 @@ class _ScriptedSource:
     def __init__(self, sid, script, env):
         self.sid, self.script, self.env, self.i = sid, script, env, 0
         self.stop_after = None
+        self.tz = None
 
     def __aiter__(self):
         return self
@@ -71,7 +80,7 @@ class _ScriptedSource:
         else:
             q = Quantity(float("nan"))
         env.log.append(["recv", self.sid, ts, kind, ident])
-        return Sample(dt(ts), q)
+        return Sample(dt(ts, self.tz), q)
 
     def __repr__(self):
         return f"src{self.sid}"
@@ -154,7 +163,7 @@ async def _scenario(case, loop):
             max_data_age_in_periods=age,
             resampling_function=rec_fn,
             initial_buffer_len=case["init_len"], warn_buffer_len=case["warn_len"], max_buffer_len=case["max_len"],
-            align_to=None if case["align"] is None else dt(case["align"]),
+            align_to=None if case["align"] is None else dt(case["align"], case.get("align_tz")),
         )
         rs = Resampler(cfg)
         sources = {}
@@ -193,6 +202,7 @@ async def _scenario(case, loop):
             spec = case["series"][sid]
             src = _ScriptedSource(sid, spec.get("samples", []), env)
             src.stop_after = spec.get("stop_at")
+            src.tz = case.get("sample_tz")
             sources[sid] = src
             names[id(src)] = sid
             log.append(["add", sid, env.clk()])
@@ -281,7 +291,7 @@ def build_trace(case, log):
 
     def new_tick(clk):
         t = {"outs": [], "fire": clk, "exits": {}, "fail": [], "dead": list(dead), "marker": None, "mclk": None,
-             "vals": {}, "sp": {}, "maxlen": {}, "fn": {}}
+             "vals": {}, "sp": {}, "maxlen": {}, "fn": {}, "during": []}
         trace.append(("tick", t))
         return t
     prev = None
@@ -291,11 +301,13 @@ def build_trace(case, log):
             break
         if k in ("add", "remove"):
             cur = None
-            trace.append((k, e[1], e[2]))
-            # the series dictionary changes while a gather is in flight: resample() then pairs results with
-            # the wrong sources (or dies with IndexError); which error it reports is not modelled
-            for t in open_exit.values():
-                t["disturbed"] = True
+            if open_exit:
+                # the series dictionary changes while a gather is in flight: resample() will pair the results
+                # with the keys as they are afterwards (or die with IndexError); the change belongs to that tick
+                t = next(iter(open_exit.values()))
+                t["during"].append((k, e[1], e[2]))
+            else:
+                trace.append((k, e[1], e[2]))
         elif k == "hog":
             cur = None
         elif k == "srcstop":
@@ -324,15 +336,20 @@ def build_trace(case, log):
                 last = t
             t["marker"], t["mclk"] = k, e[-1]
             if k == "raised":
-                t["raised"] = sorted(e[1])
+                t["raised"] = list(e[1])          # in the order of ResamplingError.exceptions
+            if k == "crash":
+                t["crash"] = e[1]
             cur = None
         prev = e
-    # a tick whose gather had not finished when the run ended: whether it raises is not observed
+    # a tick whose gather (or whose few loop iterations after it) had not finished when the run ended:
+    # how resample() left it is not observed
+    endclk = next((e[1] for e in log if e[0] == "end"), None)
     for it in trace:
         if it[0] == "tick":
             t = it[1]
-            if len(t["exits"]) < len(t["outs"]) or (t["fail"] and t["marker"] is None) or t.get("disturbed") \
-                    or t["marker"] == "crash":
+            last_exit = max([c for c, _ in t["exits"].values()] + [t["fire"]])
+            if len(t["exits"]) < len(t["outs"]) or (t["marker"] is None and (
+                    case["one_shot"] or (endclk is not None and last_exit >= endclk - 2))):
                 t["incomplete"] = True
     return trace
 
@@ -378,9 +395,8 @@ C07_HEADER = """From Verif Require Import model.Resampler.
    Timestamps in a case are written relative to its creation instant [now] (parsing 16-digit literals
    is slow); [mk07] adds [now] back, the model runs on absolute microseconds. *)
 Inductive cevent :=
-| CE (e : revent) (exp : list (Z * Z) * bool)
-| CEo (e : revent) (exp : list (Z * Z))      (* whether this tick raised was not observed (run ended, or the
-                                                series set changed while its sinks were awaited) *)
+| CE (e : revent) (exp : list (Z * Z) * outcome)
+| CEo (e : revent) (exp : list (Z * Z))      (* how this tick ended was not observed (the run ended first) *)
 | CSilent (wall : Z).
 Definition sh_outs (b : Z) (o : list (Z * Z)) := map (fun p => (fst p, b + snd p)) o.
 Definition sh_cev (b : Z) (e : cevent) : cevent :=
@@ -393,10 +409,10 @@ Fixpoint ccheck (period : Z) (st : rstate) (es : list cevent) : bool :=
   match es with
   | [] => true
   | CE e exp :: es' => let '(st', o) := rstep period st e in outs_eqb o exp && ccheck period st' es'
-  | CEo e exp :: es' => let '(st', o) := rstep period st e in outs_eqb (fst o, false) (exp, false) && ccheck period st' es'
+  | CEo e exp :: es' => let '(st', o) := rstep period st e in outs_eqb (fst o, OOk) (exp, OOk) && ccheck period st' es'
   | CSilent wall :: es' =>
     let n := if wall <=? r_wend st then 0 else (wall - r_wend st + period - 1) / period in
-    ccheck period (Nat.iter (Z.to_nat n) (fun s => fst (rstep period s (Tick 0 [] []))) st) es'
+    ccheck period (Nat.iter (Z.to_nat n) (fun s => fst (rstep period s (Tick 0 [] [] []))) st) es'
   end.
 Definition mk07 (now period : Z) (align ff : option Z) (es : list cevent)
   : Z * Z * option Z * option Z * list cevent :=
@@ -423,9 +439,9 @@ def c07_parts(case, log):
             if not seen_tick and not case["one_shot"] and it[2] > 0 and not any(x.startswith("(CSilent") for x in evs):
                 evs.append(f"(CSilent {cZ(it[2])})")
                 seen_tick = True   # later ticks are not "tick 0"
-            evs.append(f"(CE (Add {cZ(it[1])}) ([], false))")
+            evs.append(f"(CE (Add {cZ(it[1])}) ([], OOk))")
         elif it[0] == "remove":
-            evs.append(f"(CE (Remove {cZ(it[1])}) ([], false))")
+            evs.append(f"(CE (Remove {cZ(it[1])}) ([], OOk))")
         else:
             t = it[1]
             if not seen_tick:
@@ -434,13 +450,21 @@ def c07_parts(case, log):
                     first_fire = t["fire"]
             T = t["outs"][0][1] if t["outs"] else None
             late = 0 if T is None else t["fire"] - (T - start)
-            raised = t["marker"] == "raised"
-            tick = f"(Tick {cZ(late)} {clist(sorted(t['fail']))} {clist(sorted(t['dead']))})"
+            if t["marker"] == "raised":
+                how = f"(ORaised {clist(t['raised'])})"
+            elif t["marker"] == "crash" and t.get("crash") == "IndexError":
+                how = "OCrash"
+            elif t["marker"] == "crash":
+                how = "(ORaised [-1])"        # an exception the model does not know: shows up as a disagreement
+            else:
+                how = "OOk"
+            during = "[" + "; ".join(f"({'CAdd' if k == 'add' else 'CRemove'} {cZ(sid)})" for k, sid, _ in t["during"]) + "]"
+            tick = f"(Tick {cZ(late)} {clist(sorted(t['fail']))} {clist(sorted(t['dead']))} {during})"
             outs = [(sid, T_ - start) for sid, T_ in t["outs"]]
             if t.get("incomplete"):
                 evs.append(f"(CEo {tick} {c_pairs(outs)})")
             else:
-                evs.append(f"(CE {tick} ({c_pairs(outs)}, {cbool(raised)}))")
+                evs.append(f"(CE {tick} ({c_pairs(outs)}, {how}))")
             ticks.append(t)
     return first_fire, evs, ticks
 
@@ -558,6 +582,28 @@ def gen_timing(rng, tier):
     return p, align, start, loop_t0, kind, phase
 
 
+# DST transitions (UTC instants, microseconds) of the zones used for align_to / sample stamps
+DST_ZONES = {
+    "Europe/Berlin": [1698541200_000000, 1711846800_000000],        # 2023-10-29 01:00Z (back), 2024-03-31 01:00Z (forward)
+    "America/New_York": [1699164000_000000, 1710054000_000000],     # 2023-11-05 06:00Z (back), 2024-03-10 07:00Z (forward)
+}
+
+
+def dst_shift(rng, p, start, nticks):
+    """(zone, delta): delta is a multiple of p that moves `start` a few ticks before a DST transition of `zone`
+    (so the run crosses it), or into the summer before it (creation in the other regime than an epoch/winter align_to)."""
+    zone = rng.choice(sorted(DST_ZONES))
+    x = rng.choice(DST_ZONES[zone])
+    r = rng.random()
+    if r < 0.7:
+        target = x - rng.randint(1, max(1, nticks - 2)) * p          # the run crosses the transition
+    elif r < 0.85:
+        target = x - rng.randrange(10**12, 6 * 10**12)               # weeks before it
+    else:
+        target = x + rng.randrange(10**9, 10**12)                    # shortly after it
+    return zone, ((target - start) // p) * p
+
+
 def tick_phase(p, align, start):
     """offset (mod p) from creation at which grid points occur"""
     return 0 if align is None else (align - start) % p
@@ -567,6 +613,12 @@ def gen_c07_case(rng, tier):
     p, align, start, loop_t0, kind, phase = gen_timing(rng, tier)
     one_shot = rng.random() < 0.3
     nticks = rng.randint(5, 12)
+    align_tz = None
+    if align is not None and rng.random() < 0.3:
+        align_tz, delta = dst_shift(rng, p, start, nticks)
+        start += delta
+        if kind != "epoch":
+            align += delta
     duration = nticks * p + 500_000 + rng.randrange(1000)
     ph = tick_phase(p, align, start)
     res = [r for r in (137, 389, 641, 883) if min((r - ph) % 1000, (ph - r) % 1000) > 5]
@@ -620,6 +672,7 @@ def gen_c07_case(rng, tier):
                     s[fld] = (h0 + d) // 1000 * 1000 + 2000 + r_add
     return {"period": p, "align": align, "start": start, "loop_t0": loop_t0, "age": [3, 1], "init_len": 16,
             "warn_len": 128, "max_len": 1024, "one_shot": one_shot, "duration": duration, "series": series, "hogs": hogs,
+            "align_tz": align_tz,
             "tag": {"align": kind, "phase": ("0" if phase == 0 else "+1" if phase == 1 else "-1" if phase == p - 1 else
                                               "half" if abs(phase - p // 2) <= 1 else "other")}}
 
@@ -642,6 +695,17 @@ def c07_boundary_cases():
                                        {"add_at": 0, "samples": [], "fail_at": 1}],
                             "hogs": [[ph + 6 * p - 1000, 1000 + p]],
                             "tag": {"align": align_kind, "phase": str(phase)}})
+    # align_to given in a DST-observing zone: runs that cross a transition, creation in the other regime
+    for zone, xs in sorted(DST_ZONES.items()):
+        for x in xs:
+            for p in (P, 7 * P):
+                for phase in (0, p // 2):
+                    for align in (0, x + 3600 * P + 5 * p, x - 40 * 86400 * P):
+                        start = x - 3 * p + phase - (x - align) % p
+                        out.append({"period": p, "align": align, "align_tz": zone, "start": start, "loop_t0": 0, "age": [3, 1],
+                                    "init_len": 16, "warn_len": 128, "max_len": 1024, "one_shot": False, "duration": 8 * p + 500_000,
+                                    "series": [{"add_at": 0, "samples": []}, {"add_at": 0, "samples": [], "fail_at": 3}],
+                                    "hogs": [], "tag": {"align": "dst:" + zone, "phase": str(phase)}})
     return out
 
 
@@ -662,6 +726,12 @@ def gen_c08_case(rng, tier):
         warn_len, max_len = 128, 1024
     nticks = rng.randint(6, 16)
     duration = nticks * p + 500_000
+    zone = None
+    if rng.random() < 0.2:
+        zone, delta = dst_shift(rng, p, start, nticks)
+        start += delta
+        if align is not None and kind != "epoch":
+            align += delta
     ph = tick_phase(p, align, start)
     # wall-clock instants of the grid points after creation (property-level knowledge)
     grid = [start + ph + k * p for k in range(0, nticks + 3)]
@@ -724,6 +794,7 @@ def gen_c08_case(rng, tier):
     case = {"period": p, "align": align, "start": start, "loop_t0": loop_t0, "age": age, "init_len": init_len,
             "warn_len": warn_len, "max_len": max_len, "one_shot": rng.random() < 0.15, "duration": duration,
             "series": series, "hogs": [],
+            "sample_tz": zone, "align_tz": zone if (zone and align is not None and rng.random() < 0.5) else None,
             "tag": {"ordered": all(is_time_ordered(s["samples"]) for s in series)}}
     if rng.random() < 0.5:
         _add_input_period_boundaries(rng, case)
@@ -878,7 +949,7 @@ async def _actor_scenario(case, loop):
         assert ds_recv is not None
         req_chan = Broadcast[ComponentMetricRequest](name="req")
         cfg = ResamplerConfig(resampling_period=timedelta(microseconds=case["period"]),
-                              align_to=None if case["align"] is None else dt(case["align"]))
+                              align_to=None if case["align"] is None else dt(case["align"], case.get("align_tz")))
         actor = ComponentMetricsResamplingActor(channel_registry=registry, data_sourcing_request_sender=ds_chan.new_sender(),
                                                 resampling_request_receiver=req_chan.new_receiver(limit=1000), config=cfg)
         actor.start()
@@ -946,6 +1017,12 @@ def run_actor_scenario(case):
 def gen_actor_case(rng, tier):
     p, align, start, loop_t0, kind, phase = gen_timing(rng, tier)
     nticks = rng.randint(5, 10)
+    align_tz = None
+    if align is not None and rng.random() < 0.3:
+        align_tz, delta = dst_shift(rng, p, start, nticks)
+        start += delta
+        if kind != "epoch":
+            align += delta
     ph = tick_phase(p, align, start)
     res = [r for r in (137, 389, 641, 883) if min((r - ph) % 1000, (ph - r) % 1000) > 5]
     metrics = []
@@ -956,6 +1033,12 @@ def gen_actor_case(rng, tier):
             m["close_at"] = at + rng.randrange(p, 4 * p) // 1000 * 1000 + res[2]
         if rng.random() < 0.5:
             m["nsamples"], m["ip"] = rng.randint(1, 20), rng.choice([p // 2, p, 2 * p])
+        if i > 0 and rng.random() < 0.3:
+            # the request reaches the actor at a tick instant, a few loop iterations into it: add_timeseries can then
+            # run while the tick's gather is in flight (resample() dies with IndexError and is called again)
+            m["req_at"] = (ph if ph else p) + rng.randrange(0, nticks - 2) * p
+            m["yields"] = rng.randrange(0, 14)
+            m.pop("close_at", None)
         metrics.append(m)
     hogs = []
     for _ in range(rng.choice([0, 1, 1, 2])):
@@ -966,4 +1049,4 @@ def gen_actor_case(rng, tier):
     hogs.sort()
     hogs = [h for i, h in enumerate(hogs) if h[0] > 0 and (i == 0 or h[0] > hogs[i - 1][0] + hogs[i - 1][1])]
     return {"period": p, "align": align, "start": start, "loop_t0": loop_t0, "duration": nticks * p + 500_000,
-            "metrics": metrics, "hogs": hogs, "tag": {"align": kind}}
+            "metrics": metrics, "hogs": hogs, "align_tz": align_tz, "tag": {"align": kind}}
